@@ -44,8 +44,30 @@ class UA:
             return interp.external_call(interp, 'eval', [SymVal(self.raw), Globals(fn), {}], [])
         return SymVal(self.raw)
 
+    interp = None
+
+    def _vf_isinstance(self, interp, c):
+        return getattr(c, 'name', None) == 'UpgradedAnnotation'
+
+    def _real_eq(self, other):
+        """run the REAL UpgradedAnnotation.__eq__ (as extracted) with this token as ``self``"""
+        I = self.interp
+        cls = I.module('sigtools._signatures').ns['UpgradedAnnotation']
+        found, fn, _ = cls.lookup('__eq__')
+        if not found:
+            return self is other
+        return bool(I.call(fn, [self, other], []))
+
+    def _vf_selfeq(self):
+        """``ua == ua``: no identity shortcut in the expression itself, the class's __eq__ decides"""
+        if self.interp is not None:
+            return self._real_eq(self)
+        return sym.CTX().decide(z3.Or(z3.Not(self.has), sym.SELFEQ(self.denotes)))
+
     def _vf_eq(self, other):
         """UpgradedAnnotation.__eq__: source_value() == source_value() (the empty annotation's is ``empty``)"""
+        if self.interp is not None and sym._Flags.nonreflexive:
+            return self._real_eq(other)
         c = sym.CTX()
         if isinstance(other, UA):
             return c.decide(z3.Or(z3.And(z3.Not(self.has), z3.Not(other.has)), z3.And(self.has, other.has, self.denotes == other.denotes)))
@@ -144,6 +166,7 @@ def mk_sig(interp, ctx, side, shape, nfuncs=1, annotations=True, tracked=True):
             ahas = z3.Bool('ah_%s%s' % (side, tag))
             av = z3.Const('a_%s%s' % (side, tag), ValS)
             ua = UA('%s%s' % (side, tag), ahas, den(av), raw=av, function=funcs[0])
+            ua.interp = interp
         else:
             ahas = z3.BoolVal(False)
             av = sym.NONEVAL
@@ -186,6 +209,8 @@ def mk_sig(interp, ctx, side, shape, nfuncs=1, annotations=True, tracked=True):
     s._d['_return_annotation'] = MV(rah, z3.Const('ra_%s' % side, ValS))
     s._d['sources'] = src
     s._d['upgraded_return_annotation'] = UA('%s.return' % side, rah, den(z3.Const('ra_%s' % side, ValS)), raw=z3.Const('ra_%s' % side, ValS), function=funcs[0]) if annotations else EmptyAnn
+    if annotations:
+        s._d['upgraded_return_annotation'].interp = interp
     if tracked:
         sym.mark_input(src, 'sources map of %s' % side)
         sym.mark_input(depths, 'depths map of %s' % side)
